@@ -488,8 +488,11 @@ def r6_ranges(ctx):
             pmq = astx.parents(q.node)
             outer = [dv for st_, dv in astx.reaching_defs(q.node, astx.u(b["profile"]), lp) if astx.enclosing(st_, pmq, ast.For) is not lp and st_ is not tgt]
             init = bool(outer) and all(dv is not None and astx.u(dv) == "self._profile" for dv in outer)
-            good = (astx.u(lp.iter) == "range(round_number)" and astx.u(b.get("prev_state")) == f"self.election_states[{idx}]"
-                    and "store_states" not in b and isinstance(tgt, ast.Assign) and astx.u(tgt.targets[0]) == astx.u(b["profile"]) and bool(init))
+            by_index = astx.u(lp.iter) == "range(round_number)" and astx.u(b.get("prev_state")) == f"self.election_states[{idx}]"
+            # the same states walked directly: for state in self.election_states[:round_number] (round_number has been reduced modulo the number of states before: C09.R4, so the slice is exactly the first round_number states)
+            by_slice = astx.u(lp.iter) in ("self.election_states[:round_number]", "self.election_states[0:round_number]") and isinstance(lp.target, ast.Name) \
+                and astx.u(b.get("prev_state")) == idx and not any(isinstance(n, ast.Name) and n.id == idx and isinstance(n.ctx, ast.Store) for st_ in lp.body for n in ast.walk(st_))
+            good = ((by_index or by_slice) and "store_states" not in b and isinstance(tgt, ast.Assign) and astx.u(tgt.targets[0]) == astx.u(b["profile"]) and bool(init))
             ctx.check(good, q, lp, f"{q.short}: replays steps 0..rn-1 from the initial profile without recording",
                       f"for {idx} in {astx.u(lp.iter)}: {astx.u(tgt)[:90]}",
                       f"replay loop is `for {idx} in {astx.u(lp.iter)}: {astx.u(tgt)[:90]}`; specified range(rn) over self.election_states[i], starting at self._profile, store_states unset")
@@ -669,9 +672,11 @@ FAULTS = [
     ("status df uses state i", [(MO, "            state = self.election_states[i + 1]", "            state = self.election_states[i]")], "C09.R6"),
     ("get_profile replays one step too many", [(MO, "        for i in range(round_number):\n            profile = self._run_step(profile, self.election_states[i])\n\n        return profile", "        for i in range(round_number + 1):\n            profile = self._run_step(profile, self.election_states[i])\n\n        return profile")], "C09.R6"),
     ("get_profile records while replaying", [(MO, "            profile = self._run_step(profile, self.election_states[i])\n\n        return profile", "            profile = self._run_step(profile, self.election_states[i], store_states=True)\n\n        return profile")], "C0"),
+    ("alaska get_profile replays a slice one state too long", [(AK, "            for i in range(round_number):\n                profile = self._run_step(profile, self.election_states[i])", "            for state in self.election_states[: round_number + 1]:\n                profile = self._run_step(profile, state)")], "C09.R6"),
     ("alaska get_profile replays from round-1 profile", [(AK, "        profile = self._profile\n\n        if round_number in [0, 1]:", "        profile = self.get_profile(0) if round_number == 0 else self._profile\n\n        if round_number in [0, 1]:")], None),
 ]
 BENIGN = [
+    ("alaska get_profile replays the slice of the first states", [(AK, "            for i in range(round_number):\n                profile = self._run_step(profile, self.election_states[i])", "            for state in self.election_states[:round_number]:\n                profile = self._run_step(profile, state)")]),
     ("literal getattr in models", [(MO, "        return self.length\n", "        return getattr(self, 'length')\n")]),
     ("guard with <= written as not >", [(MO, "            round_number < -len(self.election_states)\n            or round_number > len(self.election_states) - 1\n        ):\n            raise IndexError(\"round_number out of range.\")\n\n        round_number = round_number % len(self.election_states)\n\n        profile = self._profile",
                                          "            round_number >= len(self.election_states)\n            or -len(self.election_states) > round_number\n        ):\n            raise IndexError(\"round_number out of range.\")\n\n        round_number = round_number % len(self.election_states)\n\n        profile = self._profile")]),
